@@ -3,7 +3,7 @@ from harness import common, layerb as B, schemes as S
 
 from univers.version_constraint import VersionConstraint
 
-MODULES = ["Univers.Props.C08"]
+MODULES = ["Univers.Props.C08", "Univers.Props.Schemes"]
 LEVEL = "proof"
 RULE = ("bounded-exhaustive: every comparator sequence up to length L on version-sorted distinct versions (well-formed "
         "or not), plus variants with exact duplicates, on real versions of every hashable scheme; the real "
